@@ -703,4 +703,32 @@ Section Nest.
       apply alternation; [|exact Hne]. rewrite Lt. clear - H3. induction H3 as [|r n P rs ns Ps [Hd _] _ IH]; constructor; assumption.
     - intros i Hi. unfold catP. clear - H3 Hi. induction H3 as [|r n P rs ns Ps [_ HP] _ IH]; [constructor|]. cbn [flat_map]. apply Forall_app. split; [apply HP; exact Hi|exact IH].
   Qed.
+  (* a lookahead (?=r) / (?!r) over a position-denoting body is a zero-width factor again: it keeps the position when the
+     body has (has no) result; captures cannot change since a position-denoting body carries them along unchanged *)
+  Definition lookP (neg : bool) (P : nat -> list nat) (i : nat) : list nat :=
+    match P i with [] => if neg then [i] else [] | _ :: _ => if neg then [] else [i] end.
+  Lemma es_look_unfold f neg b x : ES (S f) (RLook true neg b) Fwd x =
+    match ES f b Fwd x with
+    | None => None
+    | Some [] => Some (if neg then [x] else [])
+    | Some (y :: _) => Some (if neg then [] else [(fst x, snd y)])
+    end.
+  Proof. destruct x; reflexivity. Qed.
+  Lemma ir_look_unfold f neg sg eg c x : IR (S f) (NLookaround neg false sg eg c) true x =
+    match IR f c true x with
+    | None => None
+    | Some [] => Some (if neg then [x] else [])
+    | Some (y :: _) => Some (if neg then [] else [(fst x, snd y)])
+    end.
+  Proof. destruct x; reflexivity. Qed.
+  Theorem lookahead_gden kr kn r n P neg sg eg : gden r n P kr kn ->
+    gden (RLook true neg r) (NLookaround neg false sg eg n) (lookP neg P) (S kr) (S kn).
+  Proof.
+    intros [[Hr Hn] Hi]. split; [split|].
+    - intros f x Hf. destruct f as [|f']; [lia|]. rewrite es_look_unfold, (Hr f' x) by lia. unfold lift, lookP.
+      destruct x as [p c]. cbn [fst snd]. destruct (P p) as [|j l]; cbn [map]; destruct neg; reflexivity.
+    - intros f i G Hf Hl. destruct f as [|f']; [lia|]. rewrite ir_look_unfold, (Hn f' i G) by (lia || exact Hl). unfold lift, lookP.
+      cbn [fst snd]. destruct (P i) as [|j l]; cbn [map]; destruct neg; reflexivity.
+    - intros i Hl. unfold lookP. destruct (P i); destruct neg; repeat constructor; exact Hl.
+  Qed.
 End Nest.
